@@ -22,12 +22,13 @@ def CarriesGo (e : GoErr) : Flow → Prop
 
 theorem wrapsGo_cases {w : JsVal} {e : GoErr} (h : w.wrapsGo e) :
     (∃ i, w = .goError i e) ∨ w = .freshGoError e := by
-  cases w <;> simp [JsVal.wrapsGo, JsVal.goErrValue, JsVal.isGoErrorInstance] at h
+  cases w <;> simp [JsVal.wrapsGo, JsVal.goErrValue, JsVal.isGoErrorInstance, JsVal.key, JsKey.isGoErrorInstance] at h
   · left; exact ⟨_, by rw [h]⟩
   · right; rw [h]
 
 theorem applyFrame_carriesGo (idx : Nat) (f : Frame) (cjs : Bool) {e : GoErr} {fl : Flow}
-    (hsw : f.swallows = false) (hc : CarriesGo e fl) : CarriesGo e (applyFrame idx f cjs fl).1 := by
+    (hsw : f.swallows = false) (hrw : f.rewraps = false) (hc : CarriesGo e fl) :
+    CarriesGo e (applyFrame idx f cjs fl).1 := by
   cases fl with
   | normal => simp [CarriesGo] at hc
   | panic x o =>
@@ -36,8 +37,8 @@ theorem applyFrame_carriesGo (idx : Nat) (f : Frame) (cjs : Bool) {e : GoErr} {f
     | other n => simp [CarriesGo] at hc
     | goErr e' =>
       obtain ⟨rfl, hu⟩ := hc
-      obtain ⟨o', h⟩ := applyFrame_unclassifiable idx f cjs (x := .goErr e') rfl o
-      rw [h]; exact ⟨rfl, hu⟩
+      obtain ⟨x', o', h, _, hx⟩ := applyFrame_unclassifiable idx f cjs (x := .goErr e') rfl o
+      rw [h, hx hrw]; exact ⟨rfl, hu⟩
     | val w =>
       have hw : w.wrapsGo e := hc
       by_cases hu : e.isUncatchable = true <;>
@@ -46,13 +47,17 @@ theorem applyFrame_carriesGo (idx : Nat) (f : Frame) (cjs : Bool) {e : GoErr} {f
       | js k =>
         cases k <;> simp [Frame.swallows, JsKind.swallows, JsKind.hasCatch, JsKind.rethrows] at hsw <;>
           simp [applyFrame, jsFrame, handleThrow, handleThrowLoop, exceptionFromValue, JsKind.hasCatch,
-            JsKind.hasFinally, JsKind.rethrows, CarriesGo, JsVal.wrapsGo, JsVal.goErrValue, JsVal.isGoErrorInstance]
+            JsKind.hasFinally, JsKind.rethrows, CarriesGo, JsVal.wrapsGo, JsVal.goErrValue, JsVal.isGoErrorInstance,
+            JsVal.key, JsKey.isGoErrorInstance]
+      | ja => simp [Frame.swallows] at hsw
+      | rfw => simp [Frame.rewraps] at hrw
       | _ =>
         cases cjs <;>
           simp [applyFrame, callable, invoke, jsCall, runWrapped, vmTry, handleThrow, handleThrowLoop,
             exceptionFromValue, panicErr, returnErr, wrapReflectErr, wrapJSFuncN, wrapJSFuncE, ErrVal.toPv, shim,
             jsFrame, runProgram, runProgram.handleThrowOpt, JsKind.hasCatch, JsKind.hasFinally, CarriesGo,
-            JsVal.wrapsGo, JsVal.goErrValue, JsVal.isGoErrorInstance, hu]
+            JsVal.wrapsGo, JsVal.goErrValue, JsVal.isGoErrorInstance, JsVal.key, JsKey.isGoErrorInstance,
+            panicValue, hu]
     | exc ex =>
       obtain ⟨w, t⟩ := ex
       have hw : w.wrapsGo e := hc
@@ -62,24 +67,230 @@ theorem applyFrame_carriesGo (idx : Nat) (f : Frame) (cjs : Bool) {e : GoErr} {f
       | js k =>
         cases k <;> simp [Frame.swallows, JsKind.swallows, JsKind.hasCatch, JsKind.rethrows] at hsw <;>
           simp [applyFrame, jsFrame, handleThrow, handleThrowLoop, exceptionFromValue, JsKind.hasCatch,
-            JsKind.hasFinally, JsKind.rethrows, CarriesGo, JsVal.wrapsGo, JsVal.goErrValue, JsVal.isGoErrorInstance]
+            JsKind.hasFinally, JsKind.rethrows, CarriesGo, JsVal.wrapsGo, JsVal.goErrValue, JsVal.isGoErrorInstance,
+            JsVal.key, JsKey.isGoErrorInstance]
+      | ja => simp [Frame.swallows] at hsw
+      | rfw => simp [Frame.rewraps] at hrw
       | _ =>
         cases cjs <;>
           simp [applyFrame, callable, invoke, jsCall, runWrapped, vmTry, handleThrow, handleThrowLoop,
             exceptionFromValue, panicErr, returnErr, wrapReflectErr, wrapJSFuncN, wrapJSFuncE, ErrVal.toPv, shim,
             jsFrame, runProgram, runProgram.handleThrowOpt, JsKind.hasCatch, JsKind.hasFinally, CarriesGo,
-            JsVal.wrapsGo, JsVal.goErrValue, JsVal.isGoErrorInstance, hu]
+            JsVal.wrapsGo, JsVal.goErrValue, JsVal.isGoErrorInstance, JsVal.key, JsKey.isGoErrorInstance,
+            panicValue, hu]
+
+/-! ### Go errors that wrap what they were made from (`RFW` frames) -/
+
+/-- `e'` reaches `e` by repeated `errors.Unwrap` (through `Exception.Unwrap` where an *Exception is wrapped). -/
+def GoErr.chainHas (e' e : GoErr) : Bool :=
+  e' == e || (match e' with
+    | .wrap _ i => i.chainHas e
+    | .interruptedE _ f => f.chainHas e
+    | .wrapExcGo _ k _ i => k.isGoErrorInstance && i.chainHas e
+    | _ => false)
+
+theorem GoErr.chainHas_refl (e : GoErr) : e.chainHas e = true := by
+  unfold GoErr.chainHas; simp
+
+theorem GoErr.chainHas_trans {a b c : GoErr} (h1 : a.chainHas b = true) (h2 : b.chainHas c = true) :
+    a.chainHas c = true := by
+  induction a with
+  | wrap i inner ih =>
+    unfold GoErr.chainHas at h1 ⊢
+    simp only [Bool.or_eq_true, beq_iff_eq] at h1 ⊢
+    rcases h1 with h | h
+    · subst h; unfold GoErr.chainHas at h2; simpa using h2
+    · exact Or.inr (ih h)
+  | interruptedE i f ih =>
+    unfold GoErr.chainHas at h1 ⊢
+    simp only [Bool.or_eq_true, beq_iff_eq] at h1 ⊢
+    rcases h1 with h | h
+    · subst h; unfold GoErr.chainHas at h2; simpa using h2
+    · exact Or.inr (ih h)
+  | wrapExcGo i k t inner ih =>
+    unfold GoErr.chainHas at h1 ⊢
+    simp only [Bool.or_eq_true, beq_iff_eq, Bool.and_eq_true] at h1 ⊢
+    rcases h1 with h | h
+    · subst h; unfold GoErr.chainHas at h2; simpa using h2
+    · exact Or.inr ⟨h.1, ih h.2⟩
+  | _ =>
+    unfold GoErr.chainHas at h1
+    simp at h1
+    subst h1
+    exact h2
+
+/-- errors.Is is monotone along the chain. -/
+theorem GoErr.chainHas_errIs {a b : GoErr} (h : a.chainHas b = true) (t : Nat) (hb : b.errIs t = true) :
+    a.errIs t = true := by
+  induction a with
+  | wrap i inner ih =>
+    unfold GoErr.chainHas at h
+    simp only [Bool.or_eq_true, beq_iff_eq] at h
+    rcases h with h | h
+    · subst h; exact hb
+    · simp [GoErr.errIs, ih h]
+  | interruptedE i f ih =>
+    unfold GoErr.chainHas at h
+    simp only [Bool.or_eq_true, beq_iff_eq] at h
+    rcases h with h | h
+    · subst h; exact hb
+    · simp [GoErr.errIs, ih h]
+  | wrapExcGo i k tp inner ih =>
+    unfold GoErr.chainHas at h
+    simp only [Bool.or_eq_true, beq_iff_eq, Bool.and_eq_true] at h
+    rcases h with h | h
+    · subst h; exact hb
+    · simp [GoErr.errIs, h.1, ih h.2]
+  | _ =>
+    unfold GoErr.chainHas at h
+    simp at h
+    subst h
+    exact hb
+
+/-- The *Exception values met along the chain only grow. -/
+theorem GoErr.chainHas_excVals {a b : GoErr} (h : a.chainHas b = true) (v : JsVal) (hb : v ∈ b.excVals) :
+    v ∈ a.excVals := by
+  induction a with
+  | wrap i inner ih =>
+    unfold GoErr.chainHas at h
+    simp only [Bool.or_eq_true, beq_iff_eq] at h
+    rcases h with h | h
+    · subst h; exact hb
+    · simpa [GoErr.excVals] using ih h
+  | interruptedE i f ih =>
+    unfold GoErr.chainHas at h
+    simp only [Bool.or_eq_true, beq_iff_eq] at h
+    rcases h with h | h
+    · subst h; exact hb
+    · simpa [GoErr.excVals] using ih h
+  | wrapExcGo i k tp inner ih =>
+    unfold GoErr.chainHas at h
+    simp only [Bool.or_eq_true, beq_iff_eq, Bool.and_eq_true] at h
+    rcases h with h | h
+    · subst h; exact hb
+    · simp [GoErr.excVals, h.1, ih h.2]
+  | _ =>
+    unfold GoErr.chainHas at h
+    simp at h
+    subst h
+    exact hb
+
+theorem JsVal.ofKey_key (v : JsVal) : JsVal.ofKey v.key v.goErrValue = v := by
+  cases v <;> rfl
+
+/-- An RFW frame around a flow that carries the Go error `e`: the new Go error wraps the old one. -/
+theorem applyFrame_rfw_carriesGo (idx : Nat) (cjs : Bool) {e : GoErr} {fl : Flow} (hc : CarriesGo e fl) :
+    ∃ e', CarriesGo e' (applyFrame idx .rfw cjs fl).1 ∧ e'.chainHas e = true := by
+  cases fl with
+  | normal => simp [CarriesGo] at hc
+  | panic x o =>
+    cases x with
+    | sentinel k => simp [CarriesGo] at hc
+    | other n => simp [CarriesGo] at hc
+    | goErr e' =>
+      obtain ⟨rfl, hu⟩ := hc
+      refine ⟨.wrap 0 e', ?_, by unfold GoErr.chainHas; simp [GoErr.chainHas_refl]⟩
+      cases cjs <;>
+        simp [applyFrame, callable, invoke, jsCall, runWrapped, vmTry, handleThrow, handleThrowLoop,
+          exceptionFromValue, recoverUncatchable, asUncatchableException, hu, returnWrapped, wrapErr,
+          wrapReflectErr, GoErr.isUncatchable, CarriesGo]
+    | val w =>
+      have hw : w.wrapsGo e := hc
+      rcases wrapsGo_cases hw with ⟨i, rfl⟩ | rfl
+      · refine ⟨.wrapExcGo 0 (.goError i) .empty e, ?_, by unfold GoErr.chainHas; simp [JsKey.isGoErrorInstance, GoErr.chainHas_refl]⟩
+        by_cases hu : e.isUncatchable = true <;> cases cjs <;>
+          simp [applyFrame, callable, invoke, jsCall, runWrapped, vmTry, handleThrow, handleThrowLoop,
+            exceptionFromValue, returnWrapped, wrapErr, wrapReflectErr, GoErr.isUncatchable, CarriesGo,
+            JsVal.wrapsGo, JsVal.goErrValue, JsVal.isGoErrorInstance, JsVal.key, JsKey.isGoErrorInstance,
+            JsVal.ownStack, hu]
+      · refine ⟨.wrapExcGo 0 .freshGoError .other e, ?_, by unfold GoErr.chainHas; simp [JsKey.isGoErrorInstance, GoErr.chainHas_refl]⟩
+        by_cases hu : e.isUncatchable = true <;> cases cjs <;>
+          simp [applyFrame, callable, invoke, jsCall, runWrapped, vmTry, handleThrow, handleThrowLoop,
+            exceptionFromValue, returnWrapped, wrapErr, wrapReflectErr, GoErr.isUncatchable, CarriesGo,
+            JsVal.wrapsGo, JsVal.goErrValue, JsVal.isGoErrorInstance, JsVal.key, JsKey.isGoErrorInstance,
+            JsVal.ownStack, hu]
+    | exc ex =>
+      obtain ⟨w, t⟩ := ex
+      have hw : w.wrapsGo e := hc
+      rcases wrapsGo_cases hw with ⟨i, rfl⟩ | rfl
+      · refine ⟨.wrapExcGo 0 (.goError i) t e, ?_, by unfold GoErr.chainHas; simp [JsKey.isGoErrorInstance, GoErr.chainHas_refl]⟩
+        by_cases hu : e.isUncatchable = true <;> cases cjs <;>
+          simp [applyFrame, callable, invoke, jsCall, runWrapped, vmTry, handleThrow, handleThrowLoop,
+            exceptionFromValue, returnWrapped, wrapErr, wrapReflectErr, GoErr.isUncatchable, CarriesGo,
+            JsVal.wrapsGo, JsVal.goErrValue, JsVal.isGoErrorInstance, JsVal.key, JsKey.isGoErrorInstance, hu]
+      · refine ⟨.wrapExcGo 0 .freshGoError t e, ?_, by unfold GoErr.chainHas; simp [JsKey.isGoErrorInstance, GoErr.chainHas_refl]⟩
+        by_cases hu : e.isUncatchable = true <;> cases cjs <;>
+          simp [applyFrame, callable, invoke, jsCall, runWrapped, vmTry, handleThrow, handleThrowLoop,
+            exceptionFromValue, returnWrapped, wrapErr, wrapReflectErr, GoErr.isUncatchable, CarriesGo,
+            JsVal.wrapsGo, JsVal.goErrValue, JsVal.isGoErrorInstance, JsVal.key, JsKey.isGoErrorInstance, hu]
+
+/-- An RFW frame around a flow that carries the JS value `v`: the result carries a Go error from which the
+*Exception with value `v` is reached by errors.Unwrap. -/
+theorem applyFrame_rfw_carries (idx : Nat) (cjs : Bool) {v : JsVal} {fl : Flow} (hc : Carries v fl) :
+    ∃ e', CarriesGo e' (applyFrame idx .rfw cjs fl).1 ∧ v ∈ e'.excVals := by
+  have key : ∀ t : StackTop, ∃ e', CarriesGo e' (wrapReflectErr (some (.go (wrapErr (.exc ⟨v, t⟩))))) ∧ v ∈ e'.excVals := by
+    intro t
+    cases hg : v.goErrValue with
+    | none =>
+      have hw : wrapErr (.exc ⟨v, t⟩) = .wrapExc 0 v.key t := by simp only [wrapErr, hg]
+      refine ⟨.wrapExc 0 v.key t, ?_, ?_⟩
+      · rw [hw]
+        simp [wrapReflectErr, GoErr.isUncatchable, CarriesGo, JsVal.wrapsGo, JsVal.goErrValue,
+          JsVal.isGoErrorInstance, JsVal.key, JsKey.isGoErrorInstance]
+      · have := JsVal.ofKey_key v; rw [hg] at this; simp [GoErr.excVals, this]
+    | some i =>
+      have hw : wrapErr (.exc ⟨v, t⟩) = .wrapExcGo 0 v.key t i := by simp only [wrapErr, hg]
+      refine ⟨.wrapExcGo 0 v.key t i, ?_, ?_⟩
+      · rw [hw]
+        by_cases hu : (GoErr.wrapExcGo 0 v.key t i).isUncatchable = true
+        · simp only [wrapReflectErr, hu, ↓reduceIte, CarriesGo]; exact ⟨trivial, trivial⟩
+        · simp only [wrapReflectErr, hu, Bool.false_eq_true, ↓reduceIte, CarriesGo]
+          simp [JsVal.wrapsGo, JsVal.goErrValue, JsVal.isGoErrorInstance, JsVal.key, JsKey.isGoErrorInstance]
+      · have := JsVal.ofKey_key v; rw [hg] at this; simp [GoErr.excVals, this]
+  have red : ∀ (ex : Exc) (o : StackTop),
+      (applyFrame idx .rfw cjs (.panic (.exc ex) o)).1 = wrapReflectErr (some (.go (wrapErr (.exc ex)))) := by
+    intro ex o
+    cases cjs <;> simp [applyFrame, callable, invoke, runWrapped, returnWrapped]
+  have redv : ∀ (o : StackTop), ∃ t,
+      (applyFrame idx .rfw cjs (.panic (.val v) o)).1 = wrapReflectErr (some (.go (wrapErr (.exc ⟨v, t⟩)))) := by
+    intro o
+    cases hs : v.ownStack with
+    | none =>
+      exact ⟨o, by cases cjs <;> simp [applyFrame, callable, invoke, jsCall, runWrapped, vmTry, handleThrow,
+        handleThrowLoop, exceptionFromValue, returnWrapped, hs]⟩
+    | some st =>
+      exact ⟨st, by cases cjs <;> simp [applyFrame, callable, invoke, jsCall, runWrapped, vmTry, handleThrow,
+        handleThrowLoop, exceptionFromValue, returnWrapped, hs]⟩
+  rcases carries_cases hc with ⟨o, rfl⟩ | ⟨t, o, rfl⟩
+  · obtain ⟨t, ht⟩ := redv o
+    rw [ht]; exact key t
+  · rw [red]; exact key t
+
+/-- Any non-swallowing frame: the carried Go error stays, or (RFW) gets wrapped. -/
+theorem applyFrame_carriesGo_gen (idx : Nat) (f : Frame) (cjs : Bool) {e : GoErr} {fl : Flow}
+    (hsw : f.swallows = false) (hc : CarriesGo e fl) :
+    ∃ e', CarriesGo e' (applyFrame idx f cjs fl).1 ∧ e'.chainHas e = true ∧ (f.rewraps = false → e' = e) := by
+  cases hr : f.rewraps with
+  | false => exact ⟨e, applyFrame_carriesGo idx f cjs hsw hr hc, GoErr.chainHas_refl e, fun _ => rfl⟩
+  | true =>
+    have : f = .rfw := by cases f <;> simp [Frame.rewraps] at hr; rfl
+    subst this
+    obtain ⟨e', h1, h2⟩ := applyFrame_rfw_carriesGo idx cjs hc
+    exact ⟨e', h1, h2, fun h => by cases h⟩
 
 theorem evalSeg_carriesGo (s : Seg) (ijs : Bool) {e : GoErr} {fl : Flow}
-    (hsw : ∀ q ∈ s, q.2.swallows = false) (hc : CarriesGo e fl) : CarriesGo e (evalSeg s fl ijs).1 := by
+    (hsw : ∀ q ∈ s, q.2.swallows = false) (hc : CarriesGo e fl) :
+    ∃ e', CarriesGo e' (evalSeg s fl ijs).1 ∧ e'.chainHas e = true ∧
+      ((∀ q ∈ s, q.2.rewraps = false) → e' = e) := by
   induction s with
-  | nil => exact hc
+  | nil => exact ⟨e, hc, GoErr.chainHas_refl e, fun _ => rfl⟩
   | cons hd tl ih =>
     obtain ⟨i, f⟩ := hd
-    have ih' := ih (fun q hq => hsw q (List.mem_cons_of_mem _ hq))
-    simpa [evalSeg] using
-      applyFrame_carriesGo i f (headIsJS tl ijs) (hsw (i, f) (List.mem_cons_self ..)) ih'
-
+    obtain ⟨e1, c1, t1, r1⟩ := ih (fun q hq => hsw q (List.mem_cons_of_mem _ hq))
+    obtain ⟨e2, c2, t2, r2⟩ := applyFrame_carriesGo_gen i f (headIsJS tl ijs) (hsw (i, f) (List.mem_cons_self ..)) c1
+    refine ⟨e2, by simpa [evalSeg] using c2, GoErr.chainHas_trans t2 t1, ?_⟩
+    intro h
+    rw [r2 (h (i, f) (List.mem_cons_self ..)), r1 (fun q hq => h q (List.mem_cons_of_mem _ hq))]
 
 theorem carriesGo_cases {e : GoErr} {fl : Flow} (h : CarriesGo e fl) :
     (∃ o, fl = .panic (.goErr e) o ∧ e.isUncatchable = true) ∨
@@ -108,16 +319,19 @@ theorem hostSeg_carriesGo (entry : Entry) (b : Bool) {e : GoErr} {fl : Flow} (hc
   · rcases wrapsGo_cases hw with ⟨i, rfl⟩ | rfl <;> cases entry <;> cases b <;>
       simp [firstCall, callable, runWrapped, runProgram, runProgram.handleThrowOpt, invoke, jsCall, vmTry,
         handleThrow, handleThrowLoop, exceptionFromValue, ranLeave, finish, wrapJSFuncE, mergeJobs,
-        ErrVal.carried, Exc.unwrap, JsVal.goErrValue, JsVal.isGoErrorInstance]
+        ErrVal.carried, Exc.unwrap, JsVal.goErrValue, JsVal.isGoErrorInstance, JsVal.key,
+        JsKey.isGoErrorInstance]
   · rcases wrapsGo_cases hw with ⟨i, rfl⟩ | rfl <;> cases entry <;> cases b <;>
       simp [firstCall, callable, runWrapped, runProgram, runProgram.handleThrowOpt, invoke, jsCall, vmTry,
         handleThrow, handleThrowLoop, exceptionFromValue, ranLeave, finish, wrapJSFuncE, mergeJobs,
-        ErrVal.carried, Exc.unwrap, JsVal.goErrValue, JsVal.isGoErrorInstance]
+        ErrVal.carried, Exc.unwrap, JsVal.goErrValue, JsVal.isGoErrorInstance, JsVal.key,
+        JsKey.isGoErrorInstance]
 
 theorem runJobs_carriesGo (p : Payload) {e : GoErr} (hp : CarriesGo e p.flow) :
     ∀ ss : List Seg, ss ≠ [] → (∀ s ∈ ss, ∀ q ∈ s, q.2.swallows = false) →
-      ((runJobs p ss).host = .ok ∧ ∃ w, (runJobs p ss).rej = [w] ∧ w.wrapsGo e) ∨
-      ((runJobs p ss).host = .err (.go e) ∧ e.isUncatchable = true ∧ (runJobs p ss).rej = []) := by
+      ∃ e', e'.chainHas e = true ∧ ((∀ s ∈ ss, ∀ q ∈ s, q.2.rewraps = false) → e' = e) ∧
+      (((runJobs p ss).host = .ok ∧ ∃ w, (runJobs p ss).rej = [w] ∧ w.wrapsGo e') ∨
+       ((runJobs p ss).host = .err (.go e') ∧ e'.isUncatchable = true ∧ (runJobs p ss).rej = [])) := by
   intro ss
   induction ss with
   | nil => intro hne; exact absurd rfl hne
@@ -125,7 +339,8 @@ theorem runJobs_carriesGo (p : Payload) {e : GoErr} (hp : CarriesGo e p.flow) :
     intro _ hsw
     cases tl with
     | nil =>
-      have c1 := evalSeg_carriesGo s p.isJS (hsw s (List.mem_cons_self ..)) hp
+      obtain ⟨e', c1, t1, r1⟩ := evalSeg_carriesGo s p.isJS (hsw s (List.mem_cons_self ..)) hp
+      refine ⟨e', t1, fun h => r1 (h s (List.mem_cons_self ..)), ?_⟩
       simp only [runJobs, segInner, List.isEmpty_nil, ↓reduceIte]
       rcases carriesGo_cases c1 with ⟨o, h, hu⟩ | ⟨w, o, h, hw⟩ | ⟨w, t, o, h, hw⟩
       · right
@@ -137,14 +352,15 @@ theorem runJobs_carriesGo (p : Payload) {e : GoErr} (hp : CarriesGo e p.flow) :
         rw [h]
         rcases wrapsGo_cases hw with ⟨i, rfl⟩ | rfl <;> cases headIsJS s p.isJS <;>
           simp [invoke, jsCall, vmTry, handleThrow, handleThrowLoop, exceptionFromValue, runJobs,
-            JsVal.wrapsGo, JsVal.goErrValue, JsVal.isGoErrorInstance]
+            JsVal.wrapsGo, JsVal.goErrValue, JsVal.isGoErrorInstance, JsVal.key, JsKey.isGoErrorInstance]
       · left
         rw [h]
         rcases wrapsGo_cases hw with ⟨i, rfl⟩ | rfl <;> cases headIsJS s p.isJS <;>
           simp [invoke, jsCall, vmTry, handleThrow, handleThrowLoop, exceptionFromValue, runJobs,
-            JsVal.wrapsGo, JsVal.goErrValue, JsVal.isGoErrorInstance]
+            JsVal.wrapsGo, JsVal.goErrValue, JsVal.isGoErrorInstance, JsVal.key, JsKey.isGoErrorInstance]
     | cons s2 tl2 =>
-      have ih' := ih (by simp) (fun s' hs' => hsw s' (List.mem_cons_of_mem _ hs'))
+      obtain ⟨e', t1, r1, ih'⟩ := ih (by simp) (fun s' hs' => hsw s' (List.mem_cons_of_mem _ hs'))
+      refine ⟨e', t1, fun h => r1 (fun s' hs' => h s' (List.mem_cons_of_mem _ hs')), ?_⟩
       have hn := evalSeg_normal s true
       have hv : vmTry (invoke (headIsJS s true) Flow.normal) = .ok := by
         cases headIsJS s true <;> simp [invoke]
@@ -154,36 +370,42 @@ theorem runJobs_carriesGo (p : Payload) {e : GoErr} (hp : CarriesGo e p.flow) :
 /-- Host-level statement for a carried Go error. -/
 theorem hostRun_carriesGo (entry : Entry) (chain : List Frame) (p : Payload) {e : GoErr}
     (hp : CarriesGo e p.flow) (hsw : ∀ f ∈ chain, f.swallows = false) :
-    (Frame.pr ∉ chain → ∃ ev, (hostRun entry chain p).host = .err ev ∧ ev.carried = some e) ∧
-    (Frame.pr ∈ chain →
-      ((hostRun entry chain p).host = .ok ∧ ∃ w, (hostRun entry chain p).rej = [w] ∧ w.wrapsGo e) ∨
-      ((hostRun entry chain p).host = .err (.go e) ∧ e.isUncatchable = true)) := by
+    ∃ e', e'.chainHas e = true ∧ ((∀ f ∈ chain, f.rewraps = false) → e' = e) ∧
+    (hasSplit chain = false → ∃ ev, (hostRun entry chain p).host = .err ev ∧ ev.carried = some e') ∧
+    (hasSplit chain = true →
+      ((hostRun entry chain p).host = .ok ∧ ∃ w, (hostRun entry chain p).rej = [w] ∧ w.wrapsGo e') ∨
+      ((hostRun entry chain p).host = .err (.go e') ∧ e'.isUncatchable = true)) := by
   have hsegsw := allSegs_frames (P := fun f => f.swallows = false) chain hsw
+  have hsegrw : (∀ f ∈ chain, f.rewraps = false) → ∀ s ∈ allSegs chain, ∀ q ∈ s, q.2.rewraps = false :=
+    fun h => allSegs_frames (P := fun f => f.rewraps = false) chain h
   have hpr := splitSegs_snd_nil_iff chain 0
   simp only [hostRun, allSegs] at *
   generalize splitSegs (indexed 0 chain) = sg at *
   obtain ⟨s0, ss⟩ := sg
-  simp only at hsegsw hpr
+  simp only at hsegsw hsegrw hpr
   cases ss with
   | nil =>
-    have hnpr : Frame.pr ∉ chain := hpr.mp rfl
-    have c1 := evalSeg_carriesGo s0 p.isJS (hsegsw s0 (List.mem_cons_self ..)) hp
+    have hnpr : hasSplit chain = false := hpr.mp rfl
+    obtain ⟨e', c1, t1, r1⟩ := evalSeg_carriesGo s0 p.isJS (hsegsw s0 (List.mem_cons_self ..)) hp
     obtain ⟨ev, h1, h2⟩ := hostSeg_carriesGo entry (headIsJS s0 p.isJS) c1
-    refine ⟨fun _ => ⟨ev, ?_, h2⟩, fun h => absurd h hnpr⟩
-    simp only [hostRunSegs, segInner, List.isEmpty_nil, ↓reduceIte, runJobs]
-    split
-    · rename_i hr; simp only [hr, ↓reduceIte] at h1; simp [h1, CallRes.toHost]
-    · rename_i hr; simp only [hr] at h1; simp at h1; simp [h1, CallRes.toHost]
+    refine ⟨e', t1, fun h => r1 (hsegrw h s0 (List.mem_cons_self ..)), fun _ => ⟨ev, ?_, h2⟩, ?_⟩
+    · simp only [hostRunSegs, segInner, List.isEmpty_nil, ↓reduceIte, runJobs]
+      split
+      · rename_i hr; simp only [hr, ↓reduceIte] at h1; simp [h1, CallRes.toHost]
+      · rename_i hr; simp only [hr] at h1; simp at h1; simp [h1, CallRes.toHost]
+    · intro h; rw [hnpr] at h; cases h
   | cons s1 tl =>
-    have hprin : Frame.pr ∈ chain := by
-      by_cases h : Frame.pr ∈ chain
-      · exact h
-      · exact absurd (hpr.mpr h) (by simp)
-    have hj := runJobs_carriesGo p hp (s1 :: tl) (by simp) (fun s hs => hsegsw s (List.mem_cons_of_mem _ hs))
+    have hprin : hasSplit chain = true := by
+      cases h : hasSplit chain with
+      | true => rfl
+      | false => exact absurd (hpr.mpr h) (by simp)
+    obtain ⟨e', t1, r1, hj⟩ := runJobs_carriesGo p hp (s1 :: tl) (by simp)
+      (fun s hs => hsegsw s (List.mem_cons_of_mem _ hs))
     have hn := evalSeg_normal s0 true
     have hf : ∀ b, firstCall entry b .normal = .ok := by
       intro b; cases entry <;> simp [firstCall, runProgram_normal, callable_normal]
-    refine ⟨fun h => absurd hprin h, fun _ => ?_⟩
+    refine ⟨e', t1, fun h => r1 (fun s hs => hsegrw h s (List.mem_cons_of_mem _ hs)), ?_, fun _ => ?_⟩
+    · intro h; rw [hprin] at h; cases h
     simp only [hostRunSegs, segInner, List.isEmpty_cons, Bool.false_eq_true, ↓reduceIte, hn, hf, ranLeave]
     rcases hj with ⟨j1, w, j2, j3⟩ | ⟨j1, j2, j3⟩
     · left
@@ -192,7 +414,6 @@ theorem hostRun_carriesGo (entry : Entry) (chain : List Frame) (p : Payload) {e 
     · right
       refine ⟨?_, j2⟩
       cases entry <;> simp [j1, mergeJobs, finish, wrapJSFuncE, CallRes.toHost]
-
 
 /-! ## The exact *Exception (value and captured stack) -/
 
@@ -206,7 +427,7 @@ theorem exact_cases {ex0 : Exc} {fl : Flow} (h : Exact ex0 fl) : ∃ o, fl = .pa
   | panic x o => cases x <;> simp [Exact] at h; exact ⟨o, by rw [h]⟩
 
 theorem applyFrame_exact (idx : Nat) (f : Frame) (cjs : Bool) {ex0 : Exc} {fl : Flow}
-    (hsw : f.swallows = false) (hr : f.rethrows = false)
+    (hsw : f.swallows = false) (hr : f.rethrows = false) (hrw : f.rewraps = false)
     (hu : ex0.val.goErrValue = none ∨ f.unwraps = false) (hc : Exact ex0 fl) :
     Exact ex0 (applyFrame idx f cjs fl).1 := by
   obtain ⟨o, rfl⟩ := exact_cases hc
@@ -221,6 +442,9 @@ theorem applyFrame_exact (idx : Nat) (f : Frame) (cjs : Bool) {ex0 : Exc} {fl : 
         simp [applyFrame, callable, invoke, jsCall, runWrapped, vmTry, handleThrow, handleThrowLoop,
           exceptionFromValue, wrapJSFuncE, returnErr, wrapReflectErr, hu, Exact]
     · simp [Frame.unwraps] at hu
+  | fcv => simp [Frame.rethrows] at hr
+  | rfw => simp [Frame.rewraps] at hrw
+  | ja => simp [Frame.swallows] at hsw
   | _ =>
     cases cjs <;>
       simp [applyFrame, callable, invoke, jsCall, runWrapped, vmTry, handleThrow, handleThrowLoop,
@@ -229,6 +453,7 @@ theorem applyFrame_exact (idx : Nat) (f : Frame) (cjs : Bool) {ex0 : Exc} {fl : 
 
 theorem evalSeg_exact (s : Seg) (ijs : Bool) {ex0 : Exc} {fl : Flow}
     (hsw : ∀ q ∈ s, q.2.swallows = false) (hr : ∀ q ∈ s, q.2.rethrows = false)
+    (hrw : ∀ q ∈ s, q.2.rewraps = false)
     (hu : ex0.val.goErrValue = none ∨ ∀ q ∈ s, q.2.unwraps = false) (hc : Exact ex0 fl) :
     Exact ex0 (evalSeg s fl ijs).1 := by
   induction s with
@@ -236,6 +461,7 @@ theorem evalSeg_exact (s : Seg) (ijs : Bool) {ex0 : Exc} {fl : Flow}
   | cons hd tl ih =>
     obtain ⟨i, f⟩ := hd
     have ih' := ih (fun q hq => hsw q (List.mem_cons_of_mem _ hq)) (fun q hq => hr q (List.mem_cons_of_mem _ hq))
+      (fun q hq => hrw q (List.mem_cons_of_mem _ hq))
       (by rcases hu with h | h
           · exact Or.inl h
           · exact Or.inr (fun q hq => h q (List.mem_cons_of_mem _ hq)))
@@ -245,15 +471,17 @@ theorem evalSeg_exact (s : Seg) (ijs : Bool) {ex0 : Exc} {fl : Flow}
       · exact Or.inr (h (i, f) (List.mem_cons_self ..))
     simpa [evalSeg] using
       applyFrame_exact i f (headIsJS tl ijs) (hsw (i, f) (List.mem_cons_self ..))
-        (hr (i, f) (List.mem_cons_self ..)) hf ih'
+        (hr (i, f) (List.mem_cons_self ..)) (hrw (i, f) (List.mem_cons_self ..)) hf ih'
 
 theorem hostRun_exact (entry : Entry) (chain : List Frame) (p : Payload) {ex0 : Exc}
     (hp : Exact ex0 p.flow) (hsw : ∀ f ∈ chain, f.swallows = false) (hr : ∀ f ∈ chain, f.rethrows = false)
+    (hrw : ∀ f ∈ chain, f.rewraps = false)
     (hu : ex0.val.goErrValue = none ∨ (entry ≠ .exported ∧ ∀ f ∈ chain, f.unwraps = false))
-    (hnpr : Frame.pr ∉ chain) :
+    (hnpr : hasSplit chain = false) :
     (hostRun entry chain p).host = .err (.exc ex0) := by
   have hsegsw := allSegs_frames (P := fun f => f.swallows = false) chain hsw
   have hsegr := allSegs_frames (P := fun f => f.rethrows = false) chain hr
+  have hsegrw := allSegs_frames (P := fun f => f.rewraps = false) chain hrw
   have hsegu : ex0.val.goErrValue = none ∨ ∀ s ∈ allSegs chain, ∀ q ∈ s, q.2.unwraps = false := by
     rcases hu with h | h
     · exact Or.inl h
@@ -262,9 +490,10 @@ theorem hostRun_exact (entry : Entry) (chain : List Frame) (p : Payload) {ex0 : 
   simp only [hostRun, allSegs] at *
   generalize splitSegs (indexed 0 chain) = sg at *
   obtain ⟨s0, ss⟩ := sg
-  simp only at hsegsw hsegr hsegu hpr
+  simp only at hsegsw hsegr hsegrw hsegu hpr
   subst hpr
   have c1 := evalSeg_exact s0 p.isJS (hsegsw s0 (List.mem_cons_self ..)) (hsegr s0 (List.mem_cons_self ..))
+    (hsegrw s0 (List.mem_cons_self ..))
     (by rcases hsegu with h | h
         · exact Or.inl h
         · exact Or.inr (h s0 (List.mem_cons_self ..))) hp
@@ -281,10 +510,12 @@ theorem hostRun_exact (entry : Entry) (chain : List Frame) (p : Payload) {ex0 : 
   simp only [hostRunSegs, segInner, List.isEmpty_nil, ↓reduceIte, h, hfc, ranLeave, runJobs, mergeJobs, hfin,
     CallRes.toHost]
 
-/-- With swallowing frames allowed: every catch block in the whole run received `v` itself. -/
+/-- With swallowing frames allowed: every catch block / async rejection in the whole run received `v` itself. -/
 theorem hostRun_log_ok (entry : Entry) (chain : List Frame) (p : Payload) {v : JsVal}
-    (hp : Carries v p.flow) (hu : v.goErrValue = none ∨ ∀ f ∈ chain, f.unwraps = false) :
+    (hp : Carries v p.flow) (hrw : ∀ f ∈ chain, f.rewraps = false)
+    (hu : v.goErrValue = none ∨ ∀ f ∈ chain, f.unwraps = false) :
     ∀ l ∈ (hostRun entry chain p).log, LogOk v l := by
+  have hsegrw := allSegs_frames (P := fun f => f.rewraps = false) chain hrw
   have hsegu : v.goErrValue = none ∨ ∀ s ∈ allSegs chain, ∀ q ∈ s, q.2.unwraps = false := by
     rcases hu with h | h
     · exact Or.inl h
@@ -292,15 +523,15 @@ theorem hostRun_log_ok (entry : Entry) (chain : List Frame) (p : Payload) {v : J
   simp only [hostRun, allSegs] at *
   generalize splitSegs (indexed 0 chain) = sg at *
   obtain ⟨s0, ss⟩ := sg
-  simp only at hsegu
+  simp only at hsegu hsegrw
   have hu0 : v.goErrValue = none ∨ ∀ q ∈ s0, q.2.unwraps = false := by
     rcases hsegu with h | h
     · exact Or.inl h
     · exact Or.inr (h s0 (List.mem_cons_self ..))
   have hin : (segInner p ss.isEmpty).1 = .normal ∨ Carries v (segInner p ss.isEmpty).1 := by
     cases ss <;> simp [segInner, hp]
-  obtain ⟨_, c2⟩ := evalSeg_carries_or_normal s0 (segInner p ss.isEmpty).2 hu0 hin
-  have hj := runJobs_log_ok p hp ss
+  obtain ⟨_, c2⟩ := evalSeg_carries_or_normal s0 (segInner p ss.isEmpty).2 (hsegrw s0 (List.mem_cons_self ..)) hu0 hin
+  have hj := runJobs_log_ok p hp ss (fun s hs => hsegrw s (List.mem_cons_of_mem _ hs))
     (by rcases hsegu with h | h
         · exact Or.inl h
         · exact Or.inr (fun s hs => h s (List.mem_cons_of_mem _ hs)))
@@ -312,6 +543,87 @@ theorem hostRun_log_ok (entry : Entry) (chain : List Frame) (p : Payload) {v : J
     · exact c2 l hl
     · exact hj l hl
   · exact c2 l hl
+
+/-! ### The thrown value stays reachable through RFW frames -/
+
+/-- The flow carries `v` itself, or a Go error from which an *Exception with value `v` is reached by Unwrap. -/
+def Reaches (v : JsVal) (fl : Flow) : Prop :=
+  Carries v fl ∨ ∃ e, CarriesGo e fl ∧ v ∈ e.excVals
+
+theorem applyFrame_reaches (idx : Nat) (f : Frame) (cjs : Bool) {v : JsVal} {fl : Flow}
+    (hsw : f.swallows = false) (hu : v.goErrValue = none ∨ f.unwraps = false) (hc : Reaches v fl) :
+    Reaches v (applyFrame idx f cjs fl).1 := by
+  rcases hc with hc | ⟨e, hc, hv⟩
+  · cases hr : f.rewraps with
+    | false => exact Or.inl (applyFrame_carries idx f cjs hsw hr hu hc).1
+    | true =>
+      have : f = .rfw := by cases f <;> simp [Frame.rewraps] at hr; rfl
+      subst this
+      exact Or.inr (applyFrame_rfw_carries idx cjs hc)
+  · obtain ⟨e', c, t, _⟩ := applyFrame_carriesGo_gen idx f cjs hsw hc
+    exact Or.inr ⟨e', c, GoErr.chainHas_excVals t v hv⟩
+
+theorem evalSeg_reaches (s : Seg) (ijs : Bool) {v : JsVal} {fl : Flow}
+    (hsw : ∀ q ∈ s, q.2.swallows = false)
+    (hu : v.goErrValue = none ∨ ∀ q ∈ s, q.2.unwraps = false) (hc : Reaches v fl) :
+    Reaches v (evalSeg s fl ijs).1 := by
+  induction s with
+  | nil => exact hc
+  | cons hd tl ih =>
+    obtain ⟨i, f⟩ := hd
+    have ih' := ih (fun q hq => hsw q (List.mem_cons_of_mem _ hq))
+      (by rcases hu with h | h
+          · exact Or.inl h
+          · exact Or.inr (fun q hq => h q (List.mem_cons_of_mem _ hq)))
+    have hf : v.goErrValue = none ∨ f.unwraps = false := by
+      rcases hu with h | h
+      · exact Or.inl h
+      · exact Or.inr (h (i, f) (List.mem_cons_self ..))
+    simpa [evalSeg] using applyFrame_reaches i f (headIsJS tl ijs) (hsw (i, f) (List.mem_cons_self ..)) hf ih'
+
+theorem carried_excVals {ev : ErrVal} {e : GoErr} (h : ev.carried = some e) (v : JsVal) (hv : v ∈ e.excVals) :
+    v ∈ ev.excVals := by
+  cases ev with
+  | go e' => simp [ErrVal.carried] at h; simp [ErrVal.excVals, h, hv]
+  | exc ex => simp [ErrVal.carried] at h; simp [ErrVal.excVals, h, hv]
+
+/-- Host-level: without a job frame, the host's error reaches an *Exception whose value is `v`. -/
+theorem hostRun_reaches (entry : Entry) (chain : List Frame) (p : Payload) {v : JsVal}
+    (hp : Carries v p.flow) (hsw : ∀ f ∈ chain, f.swallows = false)
+    (hu : v.goErrValue = none ∨ (entry ≠ .exported ∧ ∀ f ∈ chain, f.unwraps = false))
+    (hnpr : hasSplit chain = false) :
+    ∃ ev, (hostRun entry chain p).host = .err ev ∧ v ∈ ev.excVals := by
+  have hsegsw := allSegs_frames (P := fun f => f.swallows = false) chain hsw
+  have hsegu : v.goErrValue = none ∨ ∀ s ∈ allSegs chain, ∀ q ∈ s, q.2.unwraps = false := by
+    rcases hu with h | h
+    · exact Or.inl h
+    · exact Or.inr (allSegs_frames (P := fun f => f.unwraps = false) chain h.2)
+  have hpr := (splitSegs_snd_nil_iff chain 0).mpr hnpr
+  simp only [hostRun, allSegs] at *
+  generalize splitSegs (indexed 0 chain) = sg at *
+  obtain ⟨s0, ss⟩ := sg
+  simp only at hsegsw hsegu hpr
+  subst hpr
+  have c1 := evalSeg_reaches s0 p.isJS (hsegsw s0 (List.mem_cons_self ..))
+    (by rcases hsegu with h | h
+        · exact Or.inl h
+        · exact Or.inr (h s0 (List.mem_cons_self ..))) (Or.inl hp)
+  rcases c1 with c1 | ⟨e, c1, hv⟩
+  · obtain ⟨ex, he, hev⟩ := firstCall_carries entry (headIsJS s0 p.isJS) c1
+    have hfin : finish entry (.err (.exc ex)) = .err (.exc ex) := by
+      apply finish_exc
+      rcases hu with h | h
+      · exact Or.inl (by rw [hev]; exact h)
+      · exact Or.inr h.1
+    refine ⟨.exc ex, ?_, by simp [ErrVal.excVals, hev]⟩
+    simp only [hostRunSegs, segInner, List.isEmpty_nil, ↓reduceIte, he, ranLeave, runJobs, mergeJobs, hfin,
+      CallRes.toHost]
+  · obtain ⟨ev, h1, h2⟩ := hostSeg_carriesGo entry (headIsJS s0 p.isJS) c1
+    refine ⟨ev, ?_, carried_excVals h2 v hv⟩
+    simp only [hostRunSegs, segInner, List.isEmpty_nil, ↓reduceIte, runJobs]
+    split
+    · rename_i hr; simp only [hr, ↓reduceIte] at h1; simp [h1, CallRes.toHost]
+    · rename_i hr; simp only [hr] at h1; simp at h1; simp [h1, CallRes.toHost]
 
 theorem carried_errIs {ev : ErrVal} {e : GoErr} (h : ev.carried = some e) (t : Nat) :
     ev.errIs t = e.errIs t := by
